@@ -336,7 +336,7 @@ func oneCase(run *hx.Run, n int) {
 func main() {
 	run := hx.Start()
 	run.Rule = "every transaction answer (results / error positions) and the full table dump after every transaction equal the Lean model's; aborted => nothing changed, nothing published, nobody woken, no lock delay; committed => changed rows carry the index; transaction = fold of its operations; TxnRO never writes"
-	n := run.Scale(250, 2500)
+	n := run.Scale(600, 5000)
 	for i := 0; i < n; i++ {
 		oneCase(run, i)
 	}
